@@ -1,0 +1,84 @@
+//! Verification hooks. Compiled only with `--cfg rce_verif`; with the flag off none of
+//! this exists and no call site is compiled in.
+//!
+//! * `TT_OFF`      - when set, the inner search empties the transposition table before
+//!                   every probe (result caching neutralised).
+//! * `tt_written`  - observer called after every transposition-table insert.
+//! * `sched`       - labelled schedule point: prints `verif-sched <label>` on stderr and
+//!                   sleeps for the time configured in `RCE_VERIF_SCHED="label=ms,..."`;
+//!                   a no-op for labels that are not configured.
+
+use std::sync::atomic::{AtomicBool, Ordering};
+use std::sync::{Mutex, OnceLock};
+use std::time::Duration;
+
+use crate::board::zkey::ZKey;
+
+pub static TT_OFF: AtomicBool = AtomicBool::new(false);
+
+pub fn tt_off() -> bool {
+    TT_OFF.load(Ordering::Relaxed)
+}
+
+/// One transposition-table insert, as seen at the insert site.
+#[derive(Clone, Copy, Debug)]
+pub struct TtWrite {
+    /// 0 = root (`alpha_beta_start`), 1 = beta cut-off, 2 = end of node
+    pub site: u8,
+    pub key: ZKey,
+    pub nodes: u64,
+    pub node_budget: Option<u64>,
+    pub running: bool,
+}
+
+/// The recorder may return `true` to request that the search's `running` flag be cleared
+/// (this is how a `stop` is injected at a chosen point).
+pub type Recorder = Box<dyn FnMut(TtWrite) -> bool + Send>;
+
+static RECORDER: Mutex<Option<Recorder>> = Mutex::new(None);
+
+pub fn set_recorder(recorder: Option<Recorder>) {
+    *RECORDER.lock().unwrap_or_else(std::sync::PoisonError::into_inner) = recorder;
+}
+
+pub fn tt_written(site: u8, key: ZKey, nodes: u64, node_budget: Option<u64>, running: &AtomicBool) {
+    let mut guard = RECORDER
+        .lock()
+        .unwrap_or_else(std::sync::PoisonError::into_inner);
+    if let Some(recorder) = guard.as_mut() {
+        let stop = recorder(TtWrite {
+            site,
+            key,
+            nodes,
+            node_budget,
+            running: running.load(Ordering::Relaxed),
+        });
+        if stop {
+            running.store(false, Ordering::Relaxed);
+        }
+    }
+}
+
+static SCHED: OnceLock<Vec<(String, u64)>> = OnceLock::new();
+
+fn sched_map() -> &'static Vec<(String, u64)> {
+    SCHED.get_or_init(|| {
+        std::env::var("RCE_VERIF_SCHED")
+            .unwrap_or_default()
+            .split(',')
+            .filter_map(|item| {
+                let (label, ms) = item.split_once('=')?;
+                Some((label.trim().to_string(), ms.trim().parse().ok()?))
+            })
+            .collect()
+    })
+}
+
+pub fn sched(label: &str) {
+    if let Some((_, ms)) = sched_map().iter().find(|(l, _)| l == label) {
+        eprintln!("verif-sched {label}");
+        if *ms > 0 {
+            std::thread::sleep(Duration::from_millis(*ms));
+        }
+    }
+}
